@@ -7,6 +7,11 @@ invariant evaluated at every state (states are deduplicated by the rounded matri
 mixtures, repeated terms, nearly parallel vectors, diagonal states, analytic families on their separable ranges incl. end
 points) are separate case kinds.  The symmetric-extension SDPs are evaluated on a declared sub-alphabet under a hard
 wall-clock cap per case.
+
+Audit wave: local-unitary and party-permutation events on the structured states; structured-only dimension lists (non-
+palindromic tripartite, four parties, dimA=4); 'history' cases (dimension lists of equal size back to back in one process);
+option / container variants (check_variants); SDP grid k=1..5, mixed batches with Bell states, input / output forms,
+is_ABk_symmetric_ext_naive; unregularised (2,3) SDP states in thorough.
 """
 import itertools
 
@@ -20,17 +25,29 @@ GUARD_LAYOUT = ['numqi.entangle._misc', 'numqi.entangle.eof', 'numqi.entangle.me
 LEVEL = 'model_checking'
 RULE = ('state = separable density matrix reached by mix-in events from a pure product state of the local alphabets (key = rounded '
         'matrix); all event sequences up to the depth bound are enumerated; transition = evaluation of one criterion on one state; '
-        'invariant: every criterion accepts, every closed-form measure is finite and zero; non-trivial = distinct mixed (rank>=2) states')
+        'invariant: every criterion accepts, every closed-form measure is finite and zero; non-trivial = distinct mixed (rank>=2) states. '
+        'Further events on the structured states: local unitaries {Fourier/H, phase/S, generic}^(x)n and party permutations (images re-checked with the '
+        'permuted dims). Structured-only dimension lists (2,2,3),(3,2,2),(2,2,2,2),(4,2),(3,4). Histories: dimension lists of equal total size '
+        'evaluated back to back in one process (all orders of the (2,2,3) permutations, (2,3)<->(3,2), (2,4)<->(4,2)). Option / container axes at the '
+        'structured, family, history, initial and a strided third of the level-1 bipartite states: is_generalized_ppt return_info (same tag, all '
+        'bipartitions listed, norms <= 1+eps) and eps in {default,1e-6}; dim as list / ndarray / np.int64 tuple; real states as float64. '
+        'SDP: is_ABk_symmetric_ext over k in 1..5 x boson x ppt on (2,2), batches interleaving Bell states through the reused Problem, single-item / '
+        'list / return_info / use_tqdm forms (returned blocks PSD, normalised, reproducing rho), is_ABk_symmetric_ext_naive (2d/1d index kinds)')
 ASSUMPTIONS = [
     'every explored state is separable by construction (convex mixture of explicit product projectors)',
     'closed-form measures: |value| <= 1e-6 counts as zero (square roots amplify eps to ~1e-8); negativity <= 1e-9',
     'SDP criteria: declared sub-alphabet; a case over the wall-clock cap is listed as capped and never counted as pass; cvxpy SolverError escaping the library = solver_failed (listed)',
     'generic atoms of the local alphabets are drawn once from VERIF_SEED',
+    'matrices returned by the SDP functions are compared within 1e-3 (SCS stopping rule eps_abs=eps_rel=1e-4 on data and solutions of norm <= 1, x5 for equilibration); the irrep coefficients of numqi.group.symext are trusted when the marginal of the returned blocks is rebuilt',
+    'Bell-state positions of the mixed batches are recorded, not judged (C05 speaks about separable inputs only)',
+    'local-unitary / permutation images are separable because the maps preserve product vectors; argument containers beyond tuple[int] (list, ndarray, np.int64) are accepted by the library code paths (hf_tuple_of_int / int()) and are held to the same verdict',
 ]
 CASE_TIMEOUT = 300
 CHUNK = 1
+LU_STRIDES = (1, 7)  # structured equal-weight mixtures that are also fed through the local-unitary / party-permutation events
 
 WEIGHTS = [0.5, 0.1, 1e-6]
+PENDING = set()  # additions whose oracle fires on the unchanged tree (reported, waiting for the repair of numqi)
 
 
 # ------------------------------------------------------------------------------------------------ alphabets
@@ -79,8 +96,9 @@ def skey(rho):
 
 
 # ------------------------------------------------------------------------------------------------ the invariant
-def check_state(nq, out, rho, dims, label, with_lu=None):
-    """all non-SDP criteria on one separable state"""
+def check_state(nq, out, rho, dims, label, with_lu=None, variants=False):
+    """all non-SDP criteria on one separable state; variants=True adds the option values / argument containers
+    (check_variants); with_lu=env adds the local-unitary and party-permutation images of the state (lu_perm_images)"""
     dims = tuple(dims)
     N = rho.shape[0]
     E = nq.entangle
@@ -123,7 +141,111 @@ def check_state(nq, out, rho, dims, label, with_lu=None):
                     out.violation('%s/not_finite' % name, '%s of a separable two-qubit state is %r (%s)' % (name, v, label), rho=rho)
                 elif abs(v) > 1e-6:
                     out.violation('%s/nonzero_on_separable' % name, '%s = %.3g on a separable two-qubit state (%s)' % (name, v, label), rho=rho)
+    if variants and 'variants' not in PENDING:
+        check_variants(nq, out, rho, dims, label, guard)
+    if with_lu:
+        for rho2, dims2, label2 in lu_perm_images(rho, dims, with_lu):
+            check_state(nq, out, rho2, dims2, '%s; %s' % (label, label2), variants=False)
+            out.count('lu_or_permuted_states')
     out.state()
+
+
+def gppt_partition_count(n):
+    """number of index bipartitions of the 2n tensor legs listed by the generalized partial-transpose criterion
+    (Chen & Wu 2002): the trivial one, all subsets of 1..n-1 legs, and the unordered halves"""
+    from math import comb
+    return 1 + sum(comb(2 * n, x) for x in range(1, n)) + comb(2 * n, n) // 2
+
+
+def check_variants(nq, out, rho, dims, label, guard):
+    """option values and argument containers of the non-SDP criteria: every form must give the verdict 'passes' too
+    (the plain tuple / complex128 / default-eps call has been judged by check_state already)"""
+    E = nq.entangle
+    n = len(dims)
+    # --- is_generalized_ppt: return_info and eps
+    for eps_name, kw in (('default', {}), ('1e-6', {'eps': 1e-6})):
+        eps = kw.get('eps', 1e-10)
+        ok, v = guard('is_generalized_ppt[return_info]', lambda: E.is_generalized_ppt(rho, dims, return_info=True, **kw))
+        if ok:
+            good = isinstance(v, tuple) and len(v) == 2
+            out.check(good, 'is_generalized_ppt/return_info/not_a_pair', 'return_info=True does not return (tag, info) (%s)' % label, rho=rho, dims=dims)
+            if good:
+                tag, info = v
+                out.check(bool(tag), 'is_generalized_ppt/return_info/flags_separable', 'is_generalized_ppt(return_info=True, eps=%s) rejects a separable state of dims %s (%s)' % (eps_name, dims, label), rho=rho, dims=dims)
+                norms = [float(x[2]) for x in info]
+                out.check(len(norms) == gppt_partition_count(n), 'is_generalized_ppt/return_info/partition_count',
+                          '%d norms listed for %d parties, %d index bipartitions exist (%s)' % (len(norms), n, gppt_partition_count(n), label), rho=rho, dims=dims)
+                out.check(all(np.isfinite(x) and x <= 1 + eps for x in norms), 'is_generalized_ppt/return_info/norm_above_one',
+                          'largest listed nuclear norm %.17g > 1+eps on a separable state of dims %s (%s)' % (max(norms), dims, label), rho=rho, dims=dims)
+                legs = [tuple(sorted(tuple(x[0]) + tuple(x[1]))) for x in info]
+                out.check(all(l == tuple(range(2 * n)) for l in legs), 'is_generalized_ppt/return_info/not_a_partition', 'a listed index pair is not a partition of the %d legs (%s)' % (2 * n, label), dims=dims)
+                out.outcome((dims, 'gppt_info', len(norms), round(max(norms), 6)), nontrivial=max(norms) > 1 - 1e-6)
+        if kw:
+            ok, v = guard('is_generalized_ppt[eps]', lambda: E.is_generalized_ppt(rho, dims, **kw))
+            if ok:
+                out.check(bool(v), 'is_generalized_ppt/eps/flags_separable', 'is_generalized_ppt(eps=%s) rejects a separable state of dims %s (%s)' % (eps_name, dims, label), rho=rho, dims=dims)
+    # --- argument containers: dim as list / ndarray / tuple of np.int64; rho as float64 when it is real
+    forms = [('dim=list', rho, list(dims)), ('dim=ndarray', rho, np.array(dims)), ('dim=int64', rho, tuple(np.int64(x) for x in dims))]
+    if np.iscomplexobj(rho) and not np.any(rho.imag):
+        forms.append(('rho=float64', np.ascontiguousarray(rho.real, dtype=np.float64), dims))
+        out.count('real_dtype_states')
+    for fname, r_, d_ in forms:
+        fns = [('is_ppt', lambda: E.is_ppt(r_, d_)), ('is_generalized_ppt', lambda: E.is_generalized_ppt(r_, d_)),
+               ('check_reduction_witness', lambda: E.check_reduction_witness(r_, d_))]
+        if n == 2:
+            fns.append(('get_negativity', lambda: E.get_negativity(r_, d_)))
+        if fname == 'rho=float64':
+            if n == 2 and dims[0] == dims[1]:
+                fns.append(('check_swap_witness', lambda: E.check_swap_witness(r_)))
+            if dims == (2, 2):
+                fns += [('get_concurrence_2qubit', lambda: E.get_concurrence_2qubit(r_)), ('get_eof_2qubit', lambda: E.get_eof_2qubit(r_)), ('get_gme_2qubit', lambda: E.get_gme_2qubit(r_))]
+        for name, fn in fns:
+            ok, v = guard('%s[%s]' % (name, fname), fn)
+            if not ok:
+                continue
+            if name.startswith('get_'):
+                v = float(np.real(v)) if np.ndim(v) == 0 else np.nan
+                tol = 1e-9 if name == 'get_negativity' else 1e-6  # the bounds of check_state
+                out.check(np.isfinite(v) and abs(v) <= tol, '%s/argument_form/nonzero_on_separable' % name, '%s = %r with %s on a separable state of dims %s (%s)' % (name, v, fname, dims, label), rho=rho, dims=dims)
+            else:
+                out.check(bool(v), '%s/argument_form/flags_separable' % name, '%s with %s rejects a separable state of dims %s (%s)' % (name, fname, dims, label), rho=rho, dims=dims)
+
+
+def generic_unitary(d, rng):
+    q, r = np.linalg.qr(rng.normal(size=(d, d)) + 1j * rng.normal(size=(d, d)))
+    return q * (np.diagonal(r) / np.abs(np.diagonal(r)))
+
+
+def local_unitary_menu(d, rng):
+    """{H, S, generic} for a qubit; {Fourier, clock phases, generic} for d > 2"""
+    w = np.exp(2j * np.pi / d)
+    F = np.array([[w ** (j * k) for k in range(d)] for j in range(d)]) / np.sqrt(d)
+    S = np.diag([np.exp(0.5j * np.pi * k * k / max(d - 1, 1)) for k in range(d)])
+    return [F, S, generic_unitary(d, rng)]
+
+
+def party_permutations(n):
+    perms = [p for p in itertools.permutations(range(n)) if p != tuple(range(n))]
+    if n >= 4:  # generators and the reversal only
+        perms = [tuple(range(1, n)) + (0,), (1, 0) + tuple(range(2, n)), tuple(range(n - 1, -1, -1)), (0, 2, 1) + tuple(range(3, n))]
+    return perms
+
+
+def lu_perm_images(rho, dims, env):
+    """local-unitary and party-permutation events (DESIGN C05): images of a separable state are separable"""
+    n = len(dims)
+    N = rho.shape[0]
+    menus = [local_unitary_menu(d, env.rng('C05', 'lu', i, d)) for i, d in enumerate(dims)]
+    combos = [(0,) * n, (1,) * n, (2,) * n, tuple(i % 3 for i in range(n)), tuple((i + 1) % 3 for i in range(n))]
+    for c in combos:
+        U = np.ones((1, 1), dtype=np.complex128)
+        for i, k in enumerate(c):
+            U = np.kron(U, menus[i][k])
+        r2 = U @ rho @ U.conj().T
+        yield (r2 + r2.conj().T) / 2, dims, 'LU %s' % (c,)
+    for p in party_permutations(n):
+        r2 = rho.reshape(dims + dims).transpose(p + tuple(n + i for i in p)).reshape(N, N)
+        yield np.ascontiguousarray(r2), tuple(dims[i] for i in p), 'parties permuted %s' % (p,)
 
 
 def mix(rho, sigma, w):
@@ -132,6 +254,13 @@ def mix(rho, sigma, w):
 
 # ------------------------------------------------------------------------------------------------ cases
 DIMS_QUICK = [(2, 2), (2, 3), (3, 2), (3, 3), (2, 4), (2, 2, 2), (2, 3, 2)]
+
+
+DIMS_EXTRA = [(2, 2, 3), (3, 2, 2), (2, 2, 2, 2), (4, 2), (3, 4)]
+# ordered dimension lists of equal total size evaluated back to back in one process, caches cleared only at the start;
+# the first list is revisited at the end
+HISTORIES = ([((2, 3), (3, 2)), ((3, 2), (2, 3)), ((2, 4), (4, 2)), ((4, 2), (2, 4)), ((2, 4), (2, 2, 2), (4, 2)), ((3, 4), (2, 2, 3), (2, 3, 2), (3, 2, 2))]
+             + [tuple(p) for p in itertools.permutations([(2, 2, 3), (2, 3, 2), (3, 2, 2)])])
 
 
 def build_cases(tier, seed):
@@ -148,6 +277,14 @@ def build_cases(tier, seed):
         for i in range(nalpha):
             cases.append({'kind': 'search', 'dims': list(dims), 'init': i, 'depth': depth[dims]})
         cases.append({'kind': 'structured', 'dims': list(dims)})
+    # ---- dimension lists without a search: structured states only (non-SDP criteria; non-palindromic, 4 parties, dimA=4)
+    for dims in DIMS_EXTRA:
+        cases.append({'kind': 'structured', 'dims': list(dims)})
+    info['dims_structured_only'] = [list(d) for d in DIMS_EXTRA]
+    # ---- call histories across dimension lists inside one process (caches keyed too coarsely)
+    for seq in HISTORIES:
+        cases.append({'kind': 'history', 'seq': [list(d) for d in seq]})
+    info['histories'] = [[list(d) for d in seq] for seq in HISTORIES]
     info['depth'] = {str(k): v for k, v in depth.items()}
     info['second_level_weights'] = [0.5] if tier == 'quick' else [0.5, 1e-6]
     info['quick_menu_reduction'] = 'quick: tripartite level-1 events use every 3rd product state and w in {1/2,1e-6}; (2,2) level-2 events use every 3rd product state with w=1/2; thorough uses the full menus'
@@ -162,12 +299,40 @@ def build_cases(tier, seed):
         for lo in range(0, n22, step):
             sdp.append({'kind': 'sdp', 'dims': [2, 2], 'k': k, 'boson': boson, 'ppt': ppt, 'lo': lo, 'hi': lo + step, 'reg': 0.0,
                         'weights': [0.5, 1e-6] if tier == 'quick' else WEIGHTS})
+    # the rest of the k x boson x ppt grid (k=1: the state itself / plain PPT; k=4,5; the two k=2,3 combinations left out above)
+    grid_rest = [(k, b, p) for k in (1, 2, 3, 4, 5) for b in (False, True) for p in (False, True)
+                 if (k, b, p) not in ((2, False, False), (2, True, False), (2, False, True), (3, False, False), (3, True, False), (3, True, True))]
+    for k, boson, ppt in grid_rest:
+        if tier == 'quick':
+            sdp.append({'kind': 'sdp', 'dims': [2, 2], 'k': k, 'boson': boson, 'ppt': ppt, 'lo': 0, 'hi': 0, 'inits': list(range(0, 49, 8)), 'jstride': 3, 'reg': 0.0, 'weights': [0.5, 1e-6]})
+        else:
+            for lo in range(0, 49, 7):
+                sdp.append({'kind': 'sdp', 'dims': [2, 2], 'k': k, 'boson': boson, 'ppt': ppt, 'lo': lo, 'hi': lo + 7, 'jstride': 2, 'reg': 0.0, 'weights': [0.5, 1e-6]})
+    info['sdp_grid_rest'] = {'combinations': [list(x) for x in grid_rest], 'states': 'quick: initial states 0,8,..,48 x partners 0,3,..,48 x w in {1/2,1e-6}; thorough: all initial states x partners 0,2,..,48 x w in {1/2,1e-6}'}
+    grid_all = [(k, b, p) for k in (1, 2, 3, 4, 5) for b in (False, True) for p in (False, True)]
+    for k, boson, ppt in grid_all:
+        sdp.append({'kind': 'sdp_batch', 'dims': [2, 2], 'k': k, 'boson': boson, 'ppt': ppt})
+    for k, boson, ppt in [x for x in grid_all if x[0] in (2, 3)]:
+        sdp.append({'kind': 'sdp_forms', 'dims': [2, 2], 'k': k, 'boson': boson, 'ppt': ppt})
+    for dims in ([2, 2], [2, 3], [3, 2]):
+        for index_kind in ('2d', '1d'):
+            for k in ((2, 3) if dims == [2, 2] else (2,)):
+                sdp.append({'kind': 'sdp_naive', 'dims': dims, 'k': k, 'index_kind': index_kind})
+    info['sdp_batch'] = 'per (k,boson,ppt), (2,2): batches [Bell,sep,Bell,sep] and [sep,Bell] through one reused cvxpy Problem; separable positions must answer True, Bell positions are recorded'
+    info['sdp_forms'] = 'per (k,boson,ppt) with k=2,3, (2,2), 14-state slice: single 2-d rho (scalar result), list input, return_info=True (blocks PSD, normalised, reproduce rho), use_tqdm=True'
+    info['sdp_naive'] = 'is_ABk_symmetric_ext_naive index_kind 2d/1d: k=2,3 on (2,2) (14-state slice), k=2 on (2,3),(3,2) (4 three-term mixtures, with 0 and 10% white noise); verdict True and the returned extension is PSD, normalised, reduces to rho'
     big = [((2, 3), 2, False, False), ((2, 3), 2, True, False), ((3, 3), 2, True, False)]
     if tier == 'thorough':
         big += [((2, 3), 2, True, True), ((2, 3), 3, True, False), ((3, 3), 2, False, False), ((3, 2), 2, True, False), ((2, 4), 2, True, False)]
     for dims, k, boson, ppt in big:
         for lo in range(0, 4 if tier == 'quick' else 24, 2):
             sdp.append({'kind': 'sdp_big', 'dims': list(dims), 'k': k, 'boson': boson, 'ppt': ppt, 'lo': lo, 'hi': lo + 2, 'reg': 1e-3})
+    # boundary states (no regularisation) beyond two qubits: rank-3 mixtures of products, same configurations as the regularised ones
+    # (probe: the solver needs seconds only in the thin band reg ~ 1e-3, exact boundary states take < 0.1 s)
+    for dims, k, boson, ppt in big:
+        for lo in range(0, 4 if tier == 'quick' else 12, 2):
+            sdp.append({'kind': 'sdp_big', 'dims': list(dims), 'k': k, 'boson': boson, 'ppt': ppt, 'lo': lo, 'hi': lo + 2, 'reg': 0.0})
+    info['sdp_boundary_larger'] = 'unregularised rank-3 mixtures of products for the same (dims,k,boson,ppt) list: %d states each' % (4 if tier == 'quick' else 12)
     cases += sdp
     info['sdp'] = {'(2,2)': 'all states of depth <= 1 (weights %s) for k=2,3 x {plain, boson, +PPT}' % ([0.5, 1e-6] if tier == 'quick' else WEIGHTS),
                    'larger': [str(b) for b in big], 'regularisation_of_larger': 1e-3, 'cap_s': CASE_TIMEOUT}
@@ -186,17 +351,18 @@ def run_case(case, out, env):
         seen = set()
         w2 = [0.5] if env.tier == 'quick' else [0.5, 1e-6]
 
-        def visit(rho, label):
+        def visit(rho, label, variants=False):
             k = skey(rho)
             if k in seen:
                 out.count('merged_states')
                 return False
             seen.add(k)
-            check_state(numqi, out, rho, dims, label)
+            check_state(numqi, out, rho, dims, label, variants=variants)
             ev = np.linalg.eigvalsh(rho)
             out.outcome((dims, np.round(ev, 7)), nontrivial=bool((ev > 1e-9).sum() >= 2))
             return True
-        visit(rho0, 'init=%d' % case['init'])
+        visit(rho0, 'init=%d' % case['init'], variants=True)
+        var1 = len(dims) == 2  # option / container variants at level 1: bipartite lists, w=1/2, every 3rd product state (cost: ~17 wrapped calls per state)
         quick = env.tier == 'quick'
         tri = len(dims) >= 3
         lvl1 = list(range(0, len(A), 3)) if (quick and tri) else list(range(len(A)))
@@ -207,7 +373,7 @@ def run_case(case, out, env):
                 sg = A[j]
                 for w in w1:
                     r1 = mix(rho0, sg, w)
-                    new = visit(r1, 'init=%d;mix(%d,%g)' % (case['init'], j, w))
+                    new = visit(r1, 'init=%d;mix(%d,%g)' % (case['init'], j, w), variants=var1 and w == 0.5 and j % 3 == 0)
                     if new and case['depth'] >= 2:
                         for j2 in lvl2:
                             sg2 = A[j2]
@@ -229,11 +395,11 @@ def run_case(case, out, env):
             for nterm in range(1, 2 * N + 1):
                 idx = [(stride * t + nterm) % n for t in range(nterm)]
                 rho = sum(A[i] for i in idx) / nterm
-                check_state(numqi, out, rho, dims, 'equal mixture stride=%d terms=%d' % (stride, nterm))
+                check_state(numqi, out, rho, dims, 'equal mixture stride=%d terms=%d' % (stride, nterm), variants=True, with_lu=env if stride in LU_STRIDES else None)
                 out.outcome((dims, stride, nterm), nontrivial=nterm > 1)
         # repeated terms
         rho = (A[1] + A[1] + A[2]) / 3
-        check_state(numqi, out, rho, dims, 'repeated terms')
+        check_state(numqi, out, rho, dims, 'repeated terms', variants=True, with_lu=env)
         # nearly parallel product vectors (angle 1e-6) and geometric weights
         locs = [np.eye(d, dtype=np.complex128) for d in dims]
         for eps_ in (1e-6, 1e-3):
@@ -245,16 +411,16 @@ def run_case(case, out, env):
                     v = np.kron(v, u / np.linalg.norm(u))
                 vs.append(v)
             rho = 0.5 * np.outer(vs[0], vs[0].conj()) + 0.5 * np.outer(vs[1], vs[1].conj())
-            check_state(numqi, out, rho, dims, 'nearly parallel eps=%g' % eps_)
+            check_state(numqi, out, rho, dims, 'nearly parallel eps=%g' % eps_, variants=True, with_lu=env)
             out.outcome((dims, 'parallel', eps_), nontrivial=True)
         # computational-basis mixtures (diagonal states on the boundary of the state space) and the maximally mixed state
         for nb in range(1, N + 1):
             p = np.zeros(N)
             p[:nb] = (np.arange(nb) + 1.0)
             p /= p.sum()
-            check_state(numqi, out, np.diag(p).astype(np.complex128), dims, 'diagonal rank %d' % nb)
+            check_state(numqi, out, np.diag(p).astype(np.complex128), dims, 'diagonal rank %d' % nb, variants=True, with_lu=env)
             out.outcome((dims, 'diag', nb), nontrivial=nb > 1)
-        check_state(numqi, out, np.eye(N, dtype=np.complex128) / N, dims, 'maximally mixed')
+        check_state(numqi, out, np.eye(N, dtype=np.complex128) / N, dims, 'maximally mixed', variants=True)
         check_state(numqi, out, np.eye(N) / N, dims, 'maximally mixed (real dtype)')
         out.trace()
         out.sample = {'kind': 'structured', 'dims': list(dims)}
@@ -268,7 +434,7 @@ def run_case(case, out, env):
                         F[i * d + j, j * d + i] = 1
                 for a in np.concatenate([np.linspace(-1, 1 / d, 9), [1 / d - 1e-9]]):
                     rho = (np.eye(d * d) - a * F) / (d * d - d * a)
-                    check_state(numqi, out, rho.astype(np.complex128), (d, d), 'werner d=%d alpha=%.9g' % (d, a))
+                    check_state(numqi, out, rho.astype(np.complex128), (d, d), 'werner d=%d alpha=%.9g' % (d, a), variants=True, with_lu=env)
                     out.outcome(('werner', d, round(float(a), 9)), nontrivial=True)
         elif fam == 'isotropic':
             for d in (2, 3):
@@ -276,20 +442,36 @@ def run_case(case, out, env):
                 P = np.outer(phi, phi)
                 for a in np.concatenate([np.linspace(-1 / (d * d - 1), 1 / (d + 1), 9), [1 / (d + 1) - 1e-9]]):
                     rho = (1 - a) / (d * d) * np.eye(d * d) + a * P
-                    check_state(numqi, out, rho.astype(np.complex128), (d, d), 'isotropic d=%d alpha=%.9g' % (d, a))
+                    check_state(numqi, out, rho.astype(np.complex128), (d, d), 'isotropic d=%d alpha=%.9g' % (d, a), variants=True, with_lu=env)
                     out.outcome(('isotropic', d, round(float(a), 9)), nontrivial=True)
         else:
             # Horodecki 1997 families at their separable end points (b=0,1 for 2x4; a=0,1 for 3x3), built from the paper's formulas
             for b in (0.0, 1.0):
                 rho = horodecki_2x4(b)
-                check_state(numqi, out, rho.astype(np.complex128), (2, 4), 'horodecki2x4 b=%g' % b)
+                check_state(numqi, out, rho.astype(np.complex128), (2, 4), 'horodecki2x4 b=%g' % b, variants=True, with_lu=env)
                 out.outcome(('h24', b), nontrivial=True)
             for a in (0.0, 1.0):
                 rho = horodecki_3x3(a)
-                check_state(numqi, out, rho.astype(np.complex128), (3, 3), 'horodecki3x3 a=%g' % a)
+                check_state(numqi, out, rho.astype(np.complex128), (3, 3), 'horodecki3x3 a=%g' % a, variants=True, with_lu=env)
                 out.outcome(('h33', a), nontrivial=True)
         out.trace()
         out.sample = {'kind': 'family', 'family': fam}
+    elif kind == 'history':
+        from mc import seams
+        seams.clear_numqi_caches()
+        seq = [tuple(d) for d in case['seq']]
+        seq = seq + [seq[0]]
+        for pos, dims in enumerate(seq):
+            A = get_alpha(dims, env)
+            n = len(A)
+            N = int(np.prod(dims))
+            for stride, nterm in ((1, 1), (5, 2), (3, N), (7, 2 * N)):
+                idx = [(stride * t + nterm) % n for t in range(nterm)]
+                rho = sum(A[i] for i in idx) / nterm
+                check_state(numqi, out, rho, dims, 'history %s position %d: equal mixture stride=%d terms=%d' % (seq, pos, stride, nterm), variants=True)
+                out.outcome((pos, dims, stride, nterm), nontrivial=pos > 0 and nterm > 1)
+        out.trace()
+        out.sample = {'kind': 'history', 'seq': [list(d) for d in seq]}
     elif kind in ('sdp', 'sdp_big'):
         import cvxpy
         dims = tuple(case['dims'])
@@ -298,12 +480,13 @@ def run_case(case, out, env):
         states = []
         labels = []
         if kind == 'sdp':
-            for i in range(case['lo'], min(case['hi'], len(A))):
+            # 'inits' / 'jstride': reduced depth-1 slice (declared in info) used for the outer part of the k x boson x ppt grid
+            for i in case.get('inits', range(case['lo'], min(case['hi'], len(A)))):
                 states.append(A[i])
                 labels.append('init=%d' % i)
-                for j, sg in enumerate(A):
+                for j in range(0, len(A), case.get('jstride', 1)):
                     for w in case['weights']:
-                        states.append(mix(A[i], sg, w))
+                        states.append(mix(A[i], A[j], w))
                         labels.append('init=%d;mix(%d,%g)' % (i, j, w))
         else:
             n = len(A)
@@ -336,8 +519,218 @@ def run_case(case, out, env):
         out.outcome((dims, case['k'], case['boson'], case['ppt'], case['lo'], int(res.sum())), nontrivial=True)
         out.trace()
         out.sample = {'kind': kind, 'dims': list(dims), 'k': case['k'], 'states': len(states), 'first': labels[0]}
+    elif kind == 'sdp_batch':
+        run_sdp_batch(numqi, case, out, env)
+    elif kind == 'sdp_forms':
+        run_sdp_forms(numqi, case, out, env)
+    elif kind == 'sdp_naive':
+        run_sdp_naive(numqi, case, out, env)
     else:
         raise ValueError(kind)
+
+
+# ------------------------------------------------------------------------------------------------ SDP: batches, forms, naive
+# Residual bound for matrices returned by the solver. cvxpy's default for these Hermitian SDPs is SCS, which stops at a
+# primal residual |Ax+s-b|_inf <= eps_abs + eps_rel*max(|Ax|,|s|,|b|) with eps_abs = eps_rel = 1e-4; the data (rho, trace 1)
+# and the solution (trace 1, PSD) have entries <= 1, so 2e-4, times 5 for the equilibration SCS applies before it tests the
+# residual and for the real embedding of Hermitian matrices: 1e-3.  Measured on the slices below: <= 2e-5.  A block that
+# belongs to another item of the batch is off by O(0.1).
+TOL_SDP = 1e-3
+
+
+def bell_states():
+    v = np.array([[1, 0, 0, 1], [1, 0, 0, -1], [0, 1, 1, 0], [0, 1, -1, 0]], dtype=np.complex128) / np.sqrt(2)
+    return [np.outer(x, x.conj()) for x in v]
+
+
+def slice14(A):
+    """7 pure product states (every 8th of the 49) and 7 two-term mixtures with rotating weights"""
+    n = len(A)
+    idx = list(range(0, n, max(n // 6, 1)))[:7]
+    states = [A[i] for i in idx]
+    labels = ['init=%d' % i for i in idx]
+    for t, i in enumerate(idx):
+        j, w = (i + 10) % n, WEIGHTS[t % 3]
+        states.append(mix(A[i], A[j], w))
+        labels.append('init=%d;mix(%d,%g)' % (i, j, w))
+    return states, labels
+
+
+def sdp_call(out, key, fn):
+    """(ok, value); a cvxpy SolverError escaping the library is listed as solver_failed, anything else is a violation"""
+    import contextlib
+    import io
+    import cvxpy
+    out.trans()
+    try:
+        with contextlib.redirect_stderr(io.StringIO()):  # progress bars
+            return True, fn()
+    except cvxpy.error.SolverError:
+        out.count('solver_failed')
+    except Exception as e:
+        out.violation('%s/raises_%s' % (key, type(e).__name__), '%s raised %r on separable input' % (key, e))
+    return False, None
+
+
+def run_sdp_batch(nq, case, out, env):
+    dims = tuple(case['dims'])
+    k, boson, ppt = case['k'], case['boson'], case['ppt']
+    kw = dict(use_ppt=ppt, use_boson=boson)
+    tagk = 'k=%d,boson=%s,ppt=%s' % (k, boson, ppt)
+    seps, labels = slice14(get_alpha(dims, env))
+    bells = bell_states()
+    record = []
+    for t in range(7):
+        s1, s2 = seps[7 + t], seps[t]
+        for batch, pos in (([bells[t % 4], s1, bells[(t + 1) % 4], s2], (1, 3)), ([s2, bells[t % 4]], (0,)), ([s1, bells[(t + 2) % 4]], (0,))):
+            ok, res = sdp_call(out, 'is_ABk_symmetric_ext[batch]', lambda: nq.entangle.is_ABk_symmetric_ext(np.stack(batch), dims, k, **kw))
+            out.state(len(batch))
+            if not ok:
+                continue
+            res = np.asarray(res)
+            good = res.shape == (len(batch),)
+            out.check(good, 'is_ABk_symmetric_ext/batch/result_shape', 'result of a batch of %d has shape %s' % (len(batch), res.shape), k=k)
+            if good:
+                for q in pos:
+                    out.check(bool(res[q]), 'is_ABk_symmetric_ext/batch_with_entangled_items/flags_separable/' + tagk,
+                              'is_ABk_symmetric_ext[%s] answers False at position %d (a separable state) of a batch whose other items are Bell states (t=%d, batch length %d)' % (tagk, q, t, len(batch)),
+                              batch=np.stack(batch), dims=dims)
+                record.append(tuple(int(bool(x)) for x in res))
+    out.outcome((tagk, tuple(record)), nontrivial=any(0 in r for r in record))  # non-trivial: some Bell position answered False in between
+    if not any(0 in r for r in record):
+        out.count('sdp_batch_bell_items_all_accepted')  # expected only for k=1 without PPT
+    out.trace()
+    out.sample = {'kind': 'sdp_batch', 'k': k, 'boson': boson, 'ppt': ppt, 'verdicts': [list(r) for r in record[:3]]}
+
+
+def rho_from_blocks(nq, blocks, dimA, dimB, k, boson):
+    """the marginal on AB encoded by the irrep blocks, by the contraction the library states as its constraint
+    (coefficients from numqi.group.symext: trusted here); also the weighted trace"""
+    coeff, mult = nq.group.symext.get_symmetric_extension_irrep_coeff(dimB, k)
+    if boson:
+        coeff, mult = coeff[:1], mult[:1]
+    if len(blocks) != len(coeff):
+        return None, None
+    rdm, tr = 0, 0.0
+    for P, c, m in zip(blocks, coeff, mult):
+        x = c.shape[0]
+        if np.shape(P) != (dimA * x, dimA * x):
+            return None, None
+        rdm = rdm + np.einsum('arcs,rsbd->acbd', np.asarray(P).reshape(dimA, x, dimA, x), c)
+        tr += m * np.trace(P).real
+    return rdm.transpose(0, 2, 1, 3).reshape(dimA * dimB, dimA * dimB), tr
+
+
+def check_blocks(nq, out, blocks, rho, dims, k, boson, tagk, label):
+    good = isinstance(blocks, list) and all(isinstance(b, np.ndarray) and b.ndim == 2 for b in blocks)
+    out.check(good, 'is_ABk_symmetric_ext/return_info/blocks_missing', 'return_info=True with verdict True returns %r instead of the list of blocks (%s)' % (type(blocks), label), rho=rho)
+    if not good:
+        return 0.0
+    for b in blocks:
+        herm = np.abs(b - b.conj().T).max()
+        ev = np.linalg.eigvalsh((b + b.conj().T) / 2)
+        out.check(herm <= TOL_SDP and ev[0] >= -TOL_SDP, 'is_ABk_symmetric_ext/return_info/block_not_psd', 'returned block: |B-B^+|=%.3g, smallest eigenvalue %.3g [%s] (%s)' % (herm, ev[0], tagk, label), rho=rho, block=b)
+    rec, tr = rho_from_blocks(nq, blocks, dims[0], dims[1], k, boson)
+    if rec is None:
+        out.violation('is_ABk_symmetric_ext/return_info/block_shapes', 'blocks of shapes %s do not match the irreps [%s]' % ([np.shape(b) for b in blocks], tagk), rho=rho)
+        return 0.0
+    err = np.abs(rec - rho).max()
+    out.check(err <= TOL_SDP and abs(tr - 1) <= TOL_SDP, 'is_ABk_symmetric_ext/return_info/blocks_do_not_reproduce_rho',
+              'marginal of the returned blocks differs from rho by %.3g, weighted trace %.9g [%s] (%s)' % (err, tr, tagk, label), rho=rho, blocks=blocks)
+    return float(err)
+
+
+def run_sdp_forms(nq, case, out, env):
+    dims = tuple(case['dims'])
+    k, boson, ppt = case['k'], case['boson'], case['ppt']
+    kw = dict(use_ppt=ppt, use_boson=boson)
+    tagk = 'k=%d,boson=%s,ppt=%s' % (k, boson, ppt)
+    f = nq.entangle.is_ABk_symmetric_ext
+    states, labels = slice14(get_alpha(dims, env))
+    out.state(len(states))
+    key = 'is_ABk_symmetric_ext/%s/flags_separable/' + tagk
+    worst = 0.0
+    # single 2-d rho: scalar verdict
+    for s_, l_ in zip(states, labels):
+        ok, v = sdp_call(out, 'is_ABk_symmetric_ext[single]', lambda: f(s_, dims, k, **kw))
+        if ok:
+            out.check(np.ndim(v) == 0 and isinstance(v, (bool, np.bool_)), 'is_ABk_symmetric_ext/single/not_a_scalar_bool', 'a single 2-d rho returns %r' % (v,), rho=s_)
+            out.check(np.ndim(v) == 0 and bool(v), key % 'single', 'single 2-d rho: verdict %r on a separable state (%s)' % (v, l_), rho=s_, dims=dims)
+        ok, v = sdp_call(out, 'is_ABk_symmetric_ext[single,return_info]', lambda: f(s_, dims, k, return_info=True, **kw))
+        if ok:
+            good = isinstance(v, tuple) and len(v) == 2
+            out.check(good, 'is_ABk_symmetric_ext/single_return_info/not_a_pair', 'single rho with return_info=True returns %r' % (type(v),), rho=s_)
+            if good:
+                out.check(bool(v[0]), key % 'single_return_info', 'single rho, return_info=True: verdict %r on a separable state (%s)' % (v[0], l_), rho=s_, dims=dims)
+                if bool(v[0]):
+                    worst = max(worst, check_blocks(nq, out, v[1], s_, dims, k, boson, tagk, l_))
+    # list input, return_info on a batch, progress bar
+    for form, call in (('list', lambda: f([x for x in states], dims, k, **kw)), ('list_of_lists', lambda: f([x.tolist() for x in states], dims, k, **kw)),
+                       ('use_tqdm', lambda: f(np.stack(states), dims, k, use_tqdm=True, **kw))):
+        ok, v = sdp_call(out, 'is_ABk_symmetric_ext[%s]' % form, call)
+        if ok:
+            v = np.asarray(v)
+            out.check(v.shape == (len(states),) and bool(v.all()), key % form, 'input form %s: verdicts %s on separable states' % (form, v.tolist()), dims=dims)
+    ok, v = sdp_call(out, 'is_ABk_symmetric_ext[batch,return_info]', lambda: f(np.stack(states), dims, k, return_info=True, **kw))
+    if ok:
+        good = isinstance(v, list) and len(v) == len(states) and all(isinstance(x, tuple) and len(x) == 2 for x in v)
+        out.check(good, 'is_ABk_symmetric_ext/batch_return_info/not_a_list_of_pairs', 'batch with return_info=True returns %r' % (type(v),))
+        if good:
+            for (tag, blocks), s_, l_ in zip(v, states, labels):
+                out.check(bool(tag), key % 'batch_return_info', 'batch, return_info=True: verdict %r on a separable state (%s)' % (tag, l_), rho=s_, dims=dims)
+                if bool(tag):
+                    worst = max(worst, check_blocks(nq, out, blocks, s_, dims, k, boson, tagk, l_))  # item i must carry the blocks of item i
+    out.outcome((tagk, 'forms', round(worst, 7)), nontrivial=True)
+    out.trace()
+    out.sample = {'kind': 'sdp_forms', 'k': k, 'boson': boson, 'ppt': ppt, 'max_marginal_residual': worst}
+
+
+def run_sdp_naive(nq, case, out, env):
+    dims = tuple(case['dims'])
+    dA, dB = dims
+    k, index_kind = case['k'], case['index_kind']
+    A = get_alpha(dims, env)
+    N = dA * dB
+    if dims == (2, 2):
+        states, labels = slice14(A)
+    else:
+        states, labels = [], []
+        n = len(A)
+        # 3-term mixtures on the boundary and with 10% white noise (the solver needs seconds only in the thin band reg ~ 1e-3)
+        for t in range(4):
+            i, j, l = (5 * t + 1) % n, (11 * t + 3) % n, (17 * t + 7) % n
+            for reg in (0.0, 0.1):
+                states.append((1 - reg) * (A[i] + A[j] + A[l]) / 3 + reg * np.eye(N) / N)
+                labels.append('mixture of products %d,%d,%d with white noise %g' % (i, j, l, reg))
+    tagk = 'k=%d,index_kind=%s' % (k, index_kind)
+    worst = 0.0
+    for s_, l_ in zip(states, labels):
+        out.state()
+        ok, v = sdp_call(out, 'is_ABk_symmetric_ext_naive', lambda: nq.entangle.symext.is_ABk_symmetric_ext_naive(s_, dims, k, index_kind=index_kind))
+        if not ok:
+            continue
+        good = isinstance(v, tuple) and len(v) == 2
+        out.check(good, 'is_ABk_symmetric_ext_naive/not_a_pair', 'returns %r' % (type(v),), rho=s_)
+        if not good:
+            continue
+        out.check(bool(v[0]), 'is_ABk_symmetric_ext_naive/flags_separable/' + tagk, 'is_ABk_symmetric_ext_naive[%s] answers False for a separable state of dims %s (%s)' % (tagk, dims, l_), rho=s_, dims=dims)
+        if bool(v[0]):
+            X = np.asarray(v[1])
+            M = dB ** (k - 1)
+            if X.shape != (N * M, N * M):
+                out.violation('is_ABk_symmetric_ext_naive/extension_shape', 'extension of shape %s for dims %s k=%d' % (X.shape, dims, k), rho=s_)
+                continue
+            ev = np.linalg.eigvalsh((X + X.conj().T) / 2)
+            marg = np.einsum('ikjk->ij', X.reshape(N, M, N, M))
+            err = max(np.abs(marg - s_).max(), abs(np.trace(X).real - 1), np.abs(X - X.conj().T).max(), max(-ev[0], 0.0))
+            # exchange B1 <-> B2 (the first two copies) leaves the extension invariant
+            T = X.reshape((dA, dB, dB, dB ** (k - 2)) * 2).transpose(0, 2, 1, 3, 4, 6, 5, 7).reshape(N * M, N * M)
+            err = max(err, np.abs(T - X).max())
+            worst = max(worst, float(err))
+            out.check(err <= TOL_SDP, 'is_ABk_symmetric_ext_naive/extension_invalid/' + tagk, 'returned extension violates PSD / trace / marginal / B1<->B2 symmetry by %.3g (%s)' % (err, l_), rho=s_, X=X)
+    out.outcome((dims, tagk, round(worst, 7)), nontrivial=True)
+    out.trace()
+    out.sample = {'kind': 'sdp_naive', 'dims': list(dims), 'k': k, 'index_kind': index_kind, 'max_residual': worst}
 
 
 def horodecki_2x4(b):
